@@ -40,25 +40,39 @@ theorem skeleton_wellformed : wellformed = true := by decide
 
 /-! ### the temporary name -/
 
-/-- tmp = target ++ non-empty suffix, hence `tmp ≠ target` -/
-theorem tmp_ne_target (path : Path) (pid tid : Nat) : tmpName tmpPathParts path pid tid ≠ path := by
+/-- tmp = target ++ non-empty suffix, hence `tmp ≠ target` (whichever pid the name uses) -/
+theorem tmp_ne_target (path : Path) (pid ip tid : Nat) : tmpName tmpPathParts path pid ip tid ≠ path := by
+  obtain ⟨s, rest, hs, hne⟩ : ∃ s rest, tmpPathParts = .path :: .lit s :: rest ∧ s ≠ [] := ⟨_, _, rfl, by decide⟩
   intro h
+  rw [hs, tmpName_head] at h
   have := congrArg List.length h
-  rw [tmpName_eq] at this
-  simp at this
+  simp only [List.length_append] at this
+  have : s.length = 0 := by omega
+  exact hne (List.length_eq_zero_iff.mp this)
 
-/-- writers with different (pid, thread ident) use different temporary files -/
-theorem tmp_names_distinct (path : Path) (pid1 tid1 pid2 tid2 : Nat) (h : (pid1, tid1) ≠ (pid2, tid2)) :
-    tmpName tmpPathParts path pid1 tid1 ≠ tmpName tmpPathParts path pid2 tid2 := by
+/-- "unique per concurrent writer": writers whose LIVE (pid, thread ident) pairs differ — two threads of a process, a
+process and its forked child, unrelated processes — use different temporary files, whatever pid was current when the
+module was imported.  Rests on the generated name being `path.<os.getpid()>.<thread ident>` (first line of the proof);
+with the pid taken from a constant cached at import it is false, see `cached_pid_loses_distinctness`. -/
+theorem tmp_names_distinct (path : Path) (pid1 ip1 tid1 pid2 ip2 tid2 : Nat) (h : (pid1, tid1) ≠ (pid2, tid2)) :
+    tmpName tmpPathParts path pid1 ip1 tid1 ≠ tmpName tmpPathParts path pid2 ip2 tid2 := by
+  have hs : tmpPathParts = canonParts := by decide
   intro e
-  rw [tmpName_eq, tmpName_eq] at e
+  rw [hs, tmpName_canon, tmpName_canon] at e
   have e' := List.append_cancel_left e
   simp only [List.cons.injEq, true_and] at e'
   obtain ⟨a, b⟩ := split_unique _ _ _ _ (dot_not_mem_natDigits pid1) (dot_not_mem_natDigits pid2) e'
   exact h (by rw [natDigits_inj a, natDigits_inj b])
 
-example : tmpName tmpPathParts "m.prom".toList 12 3 = "m.prom.12.3".toList := by decide
-example : tmpName tmpPathParts "m.prom".toList 1 23 = "m.prom.1.23".toList := by decide
+/-- what a name built from a pid cached at import loses: a process and the child it forks (different live pids, same
+import-time pid, both on their main thread and hence with equal thread idents) get the SAME temporary file -/
+theorem cached_pid_loses_distinctness (path : Path) (pid1 pid2 ip tid : Nat) :
+    tmpName cachedParts path pid1 ip tid = tmpName cachedParts path pid2 ip tid := by
+  rw [tmpName_cached, tmpName_cached]
+
+example : tmpName tmpPathParts "m.prom".toList 12 7 3 = "m.prom.12.3".toList := by decide
+example : tmpName tmpPathParts "m.prom".toList 1 7 23 = "m.prom.1.23".toList := by decide
+example : tmpName cachedParts "m.prom".toList 12 7 3 = tmpName cachedParts "m.prom".toList 13 7 3 := by decide
 
 /-! ### one writer -/
 
@@ -203,12 +217,12 @@ theorem two_writers_each_complete (P1 P2 : Params) (htgt : P2.target = P1.target
 /-- registry of two collectors, the write split into three pieces (first flushed at once, second buffered), an
 existing target, an unrelated file and a stale temporary file -/
 def exP : Params :=
-  { target := "m.prom".toList, tmp := tmpName tmpPathParts "m.prom".toList 12 3,
+  { target := "m.prom".toList, tmp := tmpName tmpPathParts "m.prom".toList 12 12 3,
     collectors := [[1, 2, 3], [4, 5]], cuts := [(2, true), (1, false)], lastFlush := false }
 
 def exC : Cfg := ⟨[("m.prom".toList, [9, 9]), ("other".toList, [7]), (exP.tmp, [8])], {}⟩
 
-example : exP.tmp ≠ exP.target := tmp_ne_target _ _ _
+example : exP.tmp ≠ exP.target := tmp_ne_target _ _ _ _
 example : (body exP).length = 9 := by decide
 example : (exec (normalRun exP) exC).fs = [("m.prom".toList, [1, 2, 3, 4, 5]), ("other".toList, [7])] := by decide
 /-- after 6 effects (open, two collectors, encode, two pieces) the target is still old and tmp holds only the flushed piece -/
@@ -221,9 +235,9 @@ example : (exec (faultedRun exP ⟨2, ⟨.valueError, 77⟩, 0⟩) exC).fs = [("
 example : (exec (faultedRun exP ⟨2, ⟨.keyboardInterrupt, 1⟩, 0⟩) exC).fs.get exP.tmp = some [] := by decide
 
 def exP2 : Params :=
-  { target := "m.prom".toList, tmp := tmpName tmpPathParts "m.prom".toList 12 4, collectors := [[6]], lastFlush := true }
+  { target := "m.prom".toList, tmp := tmpName tmpPathParts "m.prom".toList 12 12 4, collectors := [[6]], lastFlush := true }
 
-example : exP.tmp ≠ exP2.tmp := tmp_names_distinct _ _ _ _ _ (by decide)
+example : exP.tmp ≠ exP2.tmp := tmp_names_distinct _ _ _ _ _ _ _ (by decide)
 example : Interleave (normalRun exP) (normalRun exP2) (merge [true, false, false, true, false] (normalRun exP) (normalRun exP2)) :=
   merge_interleave _ _ _
 /-- writer 2 renames in the middle of writer 1's call; writer 1's rename comes last and wins -/
